@@ -13,7 +13,7 @@ type Property struct {
 	Run         func(c *core.Ctx)
 	// Fixtures, when non-nil, is run against the fixture packages on every run:
 	// it must report every "bad" function and stay silent on every "good" one.
-	Fixtures func(c *core.Ctx) (reported map[string]bool)
+	Fixtures   func(c *core.Ctx) (reported map[string]bool)
 	FixturePkg string
 }
 
